@@ -161,7 +161,11 @@ def _floyd(acc, W, transform, wit, outs, label, rout=True):
     if ok:
         w2 = dict(wit, transform=transform)
         _dist_clauses(acc, 'distance_wei_floyd', r[0], Dtrue, w2, suffix=suffix)
-        _hops_clause(acc, 'distance_wei_floyd', r[1], Dtrue, O.hop_sets(L, Dtrue), w2, suffix=suffix)
+        H = O.hop_sets(L, Dtrue)
+        # 'log' lengths are irrational: minimum-length walks that tie over the reals are told apart by rounding noise only;
+        # hop-count violations on such inputs carry the input class in their key (see paths_oracle.rounding_tie_class)
+        hs = suffix + ('/rounding-tie' if transform == 'log' and O.rounding_tie_class(L, Dtrue, H) else '')
+        _hops_clause(acc, 'distance_wei_floyd', r[1], Dtrue, H, w2, suffix=hs)
         outs.append((label, 'distance_wei_floyd', np.asarray(r[0], dtype=float)))
     if rout:
         _rout(acc, W, transform, Dtrue, wit, suffix)
@@ -244,7 +248,8 @@ def check_lengths(acc, Lw, cls, part, transforms=True, rout=True):
             acc.violate('efficiency_wei/POST-mean-inverse-distance' + ('/directed' if cls == 'dir' else ''),
                         'efficiency_wei = %r, mean inverse distance over lengths 1/w = %r' % (e, eff), dict(wit, function='efficiency_wei', W=Winv.tolist()))
     _agree(acc, outs, wit)
-    _charpath(acc, Dtrue, wit)
+    if rout:
+        _charpath(acc, Dtrue, wit)
     unreachable, multi, interior = _stats(Dtrue, H)
     acc.case(key=(part, cls, n, Lw.tobytes()), nontrivial=interior or unreachable,
              sample={'kind': 'lengths ' + cls, 'L': Lw.tolist(), 'unreachable_pair': unreachable,
@@ -368,7 +373,7 @@ def run_bounded(run, tier, seed):
                      bounds={'by-position palettes': 'every labelled digraph n <= %d and graph n <= %d, lengths assigned by position from %r; weights from %r for inv/log (1 -> zero log-length)' % (pd, pu, PALETTES, W01_PALETTE),
                              'all length assignments': '; '.join('%s n=%d lengths %r (0 = no connection)' % e for e in exh),
                              'transforms': "by-position palettes: None on L, 'inv' on 1/L, 'log' on exp(-L), inv and log on the (0,1] palette; all length assignments: "
-                                           + ("None, 'inv' on 1/L, 'log' on exp(-L) (dir n=4: None only, without rout_efficiency)" if thorough else 'None only (distance_wei, distance_wei_floyd, rout_efficiency, charpath)'),
+                                           + ("None, 'inv' on 1/L, 'log' on exp(-L) (dir n=4: None only, distance_wei and distance_wei_floyd only)" if thorough else 'None only (distance_wei, distance_wei_floyd, rout_efficiency, charpath)'),
                              'functions': 'distance_wei (D and B), distance_wei_floyd (SPL and hops), efficiency_wei, rout_efficiency, charpath; agreement'},
                      rule='one case = one length/weight matrix; non-trivial = some ordered pair unreachable or at >= 2 hops on a minimum-length path; distinct by (class, n, matrix bytes)',
                      exhaustive=True)
